@@ -144,6 +144,10 @@ func readByte(r io.Reader) (int64, byte, error) {
 	}
 	var v [1]byte
 	n, err := r.Read(v[:])
+	if n == 1 {
+		// a Reader may return the last byte together with io.EOF
+		err = nil
+	}
 	return int64(n), v[0], err
 }
 
